@@ -129,6 +129,52 @@ func (w *limitWriter) Write(p []byte) (int, error) {
 	return n, errors.New("injected write fault")
 }
 
+// interleavedItems: another reader is first run to its end; then a reader over `a` and a reader over `other` advance in
+// lockstep (one item each, alternately), the way paired files are consumed. Returns what the reader over `a` delivered.
+func interleavedItems(fd *formatDef, a, other []byte) (items []gItem, capped, panicked bool) {
+	collect(func(v func(gItem) bool) (int, bool) { return fd.reader(bytes.NewReader(other), v) })
+	type step struct {
+		it   gItem
+		done bool
+	}
+	start := func(data []byte) (chan step, chan bool, *bool) {
+		out, goOn, p := make(chan step), make(chan bool), new(bool)
+		go func() {
+			if !<-goOn {
+				out <- step{done: true}
+				return
+			}
+			_, *p = fd.reader(bytes.NewReader(data), func(it gItem) bool {
+				out <- step{it: it}
+				return <-goOn
+			})
+			out <- step{done: true}
+		}()
+		return out, goOn, p
+	}
+	oa, ga, pa := start(a)
+	ob, gb, pb := start(other)
+	items = []gItem{}
+	doneA, doneB := false, false
+	for !doneA || !doneB {
+		if !doneA {
+			ga <- len(items) < itemCap
+			if s := <-oa; s.done {
+				doneA = true
+			} else {
+				items = append(items, s.it)
+			}
+		}
+		if !doneB {
+			gb <- true
+			if s := <-ob; s.done {
+				doneB = true
+			}
+		}
+	}
+	return items, len(items) >= itemCap, *pa || *pb
+}
+
 func toCRLF(d []byte) []byte { return bytes.ReplaceAll(d, []byte("\n"), []byte("\r\n")) }
 
 func crossInputs(fmtName string, salt int64, nWell, nNoise int) []corpusInput {
@@ -231,6 +277,12 @@ func deliveryDrive(args []string) error {
 				emit("cfg", "random-chunks", rd(func() io.Reader {
 					return &chunkReader{data: in.Data, next: func() int { return 1 + rr.Intn(1+rr.Intn(40)) }, withEOF: v == 0}
 				}))
+			}
+			if ii < 8 { // several readers alive at once, advancing alternately
+				other := ins[(ii+1)%len(ins)].Data
+				its, capd, pan := interleavedItems(&fd, in.Data, other)
+				tw.emit(crossEvent{Sid: sid, Fmt: fd.name, Op: "cfg", Cfg: "interleaved-with-another-reader", WF: in.WellFormed, Ids: tab.ids(its),
+					Capped: capd, Panic: pan, Input: ints(in.Data[:min(len(in.Data), 300)])})
 			}
 			if in.WellFormed {
 				emit("crlf", "crlf", rd(func() io.Reader { return bytes.NewReader(toCRLF(in.Data)) }))
